@@ -72,7 +72,7 @@ class C02(Prop):
                 "modify": t.choice([None, None, None, None, 0.3, 1.0, 5.0]),
                 # sub-second part of the file's mtime (HTTP dates round it) and a caller-owned Headers object shared by all responses of the run
                 "mtime_frac": t.choice([0.0, 0.0, 0.5, 0.25, 0.9999996, 0.999999]), "shared_headers": t.draw(3) == 0,
-                "http_version": t.choice(["1.1", "1.1", "1.0", "2"])}
+                "http_version": t.choice(["1.1", "1.1", "1.0", "2"]), "via_symlink": t.draw(10) == 0}
 
     def nontrivial(self, plan, ctx, variant):
         return plan["range"] is not None and (ctx.notes.get("emissions", 0) >= 3 or bool(ctx.faults))
@@ -94,7 +94,12 @@ class C02(Prop):
         async def scenario(loop):
             peer = AsgiHttpPeer(loop, ctx, ctx.sched, req, zerocopy=(plan["iface"] == "asgi-zc"), send_lats=lats)
             resp = FileResponse(self.fs.path(rel), self._shared, content_type=plan["ctype"], chunk_size=plan["chunk"])
-            await resp(peer.scope, peer.receive, peer.send)
+            try:
+                await resp(peer.scope, peer.receive, peer.send)
+            except (asyncio.CancelledError, SimDeadlock, SimTimeLimit, SimStepLimit):
+                raise
+            except Exception as e:  # noqa - an exception leaving the response call is its outcome (as on WSGI)
+                return {"exc": e}
             peer.monitor.on_return()
             return {"status": peer.status, "headers": peer.header_list(), "body": peer.body, "emissions": peer.send_calls, "exc": None, "complete": peer.complete}
 
@@ -109,6 +114,15 @@ class C02(Prop):
         frac = plan.get("mtime_frac", 0.0)
         rel = self.file_for(size, frac)
         content = pattern(size)
+        if plan.get("via_symlink"):
+            # the served path is a symbolic link to the file (a release directory switched by a symlink)
+            link = "c02/link-%d-%d" % (size, int(frac * 1e7))
+            lp = self.fs.path(link)
+            if not os.path.islink(lp):
+                os.makedirs(os.path.dirname(lp), exist_ok=True)
+                os.symlink(self.fs.path(rel), lp)
+            rel = link
+            ctx.probe("served_through_symlink")
         base_mtime = 1_600_000_000.0 + size + frac
         self._shared = None
         if plan.get("shared_headers"):
